@@ -71,7 +71,18 @@ def risk_prop2(ops, drivers, models=(), minnt=30):
     }
 
 
+AUTH_MODELS = [
+    {"name": "auth", "module": "Auth.tla", "cfg": "MC_Auth.cfg", "setup": "setups/auth.json", "env": {"AUTH_BASE": "gen/auth_base.json"}},
+]
+
 PROPS = {
+    "C08": {
+        "models": AUTH_MODELS,
+        "drivers": [],
+        "nontrivial": lambda e: (e["a"].get("cell"), e["a"].get("variant"), e["a"].get("who"), str(e["a"].get("subst")), e.get("res")) if isinstance(e.get("a"), dict) and "cell" in e["a"] else None,
+        "rule": "each matrix cell (instruction x variant: unmodified, signer identity, missing signature, slot x foreign object; normal and frozen account) executed through marginfi::entry is one evaluation; all cells are non-trivial; distinct by (cell, variant, identity, substitution, result)",
+        "min_nontrivial": 500,
+    },
     "C04": risk_prop(["borrow", "withdraw"]),
     "C05": risk_prop2(["liquidate"], LIQ_DRIVERS + LEDGER_DRIVERS, models=RISK_MODELS),
     "C07": risk_prop2(["bankruptcy"], LIQ_DRIVERS + LEDGER_DRIVERS, models=RISK_MODELS),
